@@ -74,6 +74,10 @@ cKeys == {<<"a">>, <<"b">>, Cs1(AP) \o <<"x">>, TK}      \* (with AP = "": no ke
 cScalars == {VS(<<>>), VS(<<"y">>), VS(<<"<", "&">>), VS(<<"]", "]", ">">>), VS(<<"&", "l", "t", ";">>), VF(<<"1", ".", "5">>), VB(<<"t", "r", "u", "e">>), VNilC}
 cScalarsQ == {VS(<<>>), VS(<<"<", "&", "l", "t", ";">>), VS(<<"]", "]", ">">>), VF(<<"1", ".", "5">>), VNilC}
 cConts == {EmptyMap, EmptyList}
+\* lists inside lists (flattened in list order, whatever follows them): one key, two scalars, up to three members a list
+cKeysN == {<<"a">>}
+cScalarsN == {VS(<<"y">>), VF(<<"1", ".", "5">>)}
+cContsN == {EmptyList}
 \* two attribute entries on one element, empty and non-empty values (whatever order the runtime visits them in)
 cKeysA2 == {<<"a">>, Cs1(AP) \o <<"x">>, Cs1(AP) \o <<"y">>, Cs1(AP) \o <<"z">>}
 cScalarsA2 == {VS(<<>>), VS(<<"v">>), VS(<<"w">>)}
